@@ -795,7 +795,21 @@ func (n *simNode) restart() {
 	}
 	_ = os.Remove(filepath.Join(n.dir, "lock"))
 	n.fsm = &simFSM{}
-	r, err := New(c.opt, n.fsm, n.dir)
+	var r *Raft
+	var err error
+	func() {
+		// a storage directory the node cannot start from (assertion / panic in openStorage) is a failed restart (C10)
+		defer func() {
+			if v := recover(); v != nil {
+				if hs, ok := v.(harnessStuck); ok {
+					panic(hs)
+				}
+				err = fmt.Errorf("panic: %v", v)
+				n.c.note(map[string]interface{}{"kind": "panic", "n": n.id, "text": fmt.Sprintf("New: %v", v), "stack": trimStack(string(debug.Stack()))})
+			}
+		}()
+		r, err = New(c.opt, n.fsm, n.dir)
+	}()
 	if err != nil {
 		n.c.note(map[string]interface{}{"kind": "restartFailed", "n": n.id, "err": err.Error()})
 		return
